@@ -17,6 +17,7 @@ CONSTANTS GroupFacts,      \* set of <<name, tags (set), summary, before, after>
           ListedBeforeInit, ListedAfterInit,   \* names GetCheckersInfo lists before / after InitEmbeddedRules (process without the analyzer)
           GroupNames,      \* names of the rule groups of rules.go
           CliDefaultNames, \* the default -enable list of the built go-critic binary
+          DegradedListings, \* listings printed by `doc` runs that exited 0 in an environment where the embedded rules cannot load
           ShippedIR, CompiledIR, ShippedDocs, RenderedDocs   \* digests
 VARIABLE x
 Init == x = 0
@@ -28,4 +29,6 @@ DocsExact == OverviewNames = RegistryNames /\ DocCmdNames = RegistryNames /\ Shi
 MarksAgree == DefaultMarked = DocDefaultNames /\ DefaultMarked = CliDefaultNames
 \* the listing follows the registrations made so far (no stale snapshot)
 ListingFollowsRegistration == ListedAfterInit = ListedBeforeInit \cup GroupNames /\ ListedBeforeInit \cap GroupNames = {}
+\* a listing that succeeds is the whole registry (a binary that cannot load its rule groups must fail, not list a part)
+ListingAllOrNothing == \A l \in DegradedListings : l = RegistryNames
 =============================================================================
